@@ -43,7 +43,7 @@ func c08check(st *vGenRun, pattern []int) vs.CheckFunc {
 				return out, fmt.Errorf("target %d probed %d times, want exactly once", i, sc.calls[i])
 			}
 			switch s {
-			case 0, 5:
+			case 0, 5, 6:
 				wantLines = append(wantLines, fmt.Sprintf(`{"i":%d}`, i))
 			case 3:
 				wantErrs = append(wantErrs, fmt.Sprintf("scan-%d", i))
@@ -88,14 +88,14 @@ func verifC08(c *drv.Ctx) {
 	} else {
 		scs = []sc{{2, 1, 2, 0, false}, {2, 2, 2, 0, false}, {3, 2, 1, 0, false}, {3, 3, 1, 0, true}, {2, 3, 2, 0, false}, {2, 2, 1, 1000, false}, {2, 2, 2, 0, true}}
 	}
-	c.R.Rule = "request streams = every pattern over {positive, request error, probe error, negative, slow positive} up to the stated length, run through the REAL startScanEngine + GenericEngine + resultChan + JSON logger " +
+	c.R.Rule = "request streams = every pattern over {positive, request error, probe error, negative, slow positive (1 ms), very slow positive (400 ms > exit delay)} up to the stated length, run through the REAL startScanEngine + GenericEngine + resultChan + JSON logger " +
 		"(channel capacities 1000/100 -> 2) with a recording scanner, W workers, rate limiter on/off, under the controlled scheduler; every schedule with at most d deviations is executed; scenarios {maxLen W d rate slowLogger}: " + fmt.Sprint(scs) +
 		"; non-trivial = pattern with at least one request; distinct = (pattern, W, rate, slow, d)"
 	idx := 0
 	seen := map[string]bool{}
 	for _, s := range scs {
 		s := s
-		vPatterns([]int{0, 1, 3, 4, 5}, s.maxLen, func(p []int) {
+		vPatterns([]int{0, 1, 3, 4, 5, 6}, s.maxLen, func(p []int) {
 			name := fmt.Sprintf("pattern=%s workers=%d rate=%d slow=%v bound=%d", vPatStr(p), s.workers, s.rate, s.slow, s.bound)
 			if seen[name] {
 				return
